@@ -63,6 +63,8 @@ func runC01(c *Ctx) {
 	c.Rule("C01.O6", "E2-escape", "the enqueue function only measures and copies its slice parameter (len, copy source, Append source); it never stores it", 1)
 	c.Rule("C01.O7", "E4", "flush: data is taken from element 0 at entry.offset; offset advances by the syscall count under n>0; the entry is popped (index 0) only on the completion edge after releaseToWrite", 2)
 	c.Rule("C01.O8", "E7b,E4", "EINTR and EAGAIN are never handed to teardown or returned as fatal; the EINTR edge re-enters the loop without touching the queue, the EAGAIN edge leaves it untouched", 6)
+	c.Rule("C01.O10", "E4", "coalescing into the queue's tail keeps the entry's (buffer, offset) meaning: when the tail's buffer is re-allocated the whole old buffer is copied to the front of the new one (the entry's offset still counts from the buffer's start)", 1)
+	c01TailGrowth(c)
 	c.Rule("C01.O9", "E3", "a failed syscall.Dup before queuing a file range never reaches a success return", 2)
 
 	core := c.Core()
@@ -1237,4 +1239,68 @@ func (c *Ctx) isWriteError(v ssa.Value, kernel map[*ssa.Function]bool, depth int
 		}
 	}
 	return false
+}
+
+// c01TailGrowth: O10.
+func c01TailGrowth(c *Ctx) {
+	core := c.Core()
+	fn := core.EnqueueBuf
+	if fn == nil {
+		c.Unres("C01.O10", "buffer-enqueue function", "not resolved")
+		return
+	}
+	fi := c.P.Info(fn)
+	key := fnKey(c.P, fn, "tail re-allocation keeps the offset's meaning")
+	const fBuf = "nbio.toWrite.buf"
+	isMallocRes := func(v ssa.Value) *ssa.Call {
+		call, ok := ir.Resolve(v).(*ssa.Call)
+		if !ok {
+			return nil
+		}
+		n := c.P.CalleeName(&call.Call)
+		if n == "invoke:mempool.Allocator.Malloc" || n == "mempool.Malloc" {
+			return call
+		}
+		return nil
+	}
+	n := 0
+	bad := ""
+	for _, st := range c.P.StoresTo(fn, fBuf) {
+		if st.Parent() != fn {
+			continue
+		}
+		if _, fresh := ir.Root(st.Addr.(*ssa.FieldAddr).X).(*ssa.Alloc); fresh {
+			continue
+		}
+		m := isMallocRes(st.Val)
+		if m == nil {
+			continue // the result of Append on the entry's own buffer
+		}
+		n++
+		okCopy := false
+		for _, cs := range c.P.CallsNamed(fn, "builtin:copy") {
+			if cs.In.Parent() != fn || !fi.Dominates(cs.In, st) {
+				continue
+			}
+			dst, src := ir.Resolve(cs.Common.Args[0]), ir.Resolve(cs.Common.Args[1])
+			da, isLoad := ir.IsLoad(dst)
+			if !isLoad || ir.Resolve(da) != ssa.Value(m) {
+				continue
+			}
+			// src must be the entry's whole buffer: *(*entry).buf, not a re-slice of it
+			if sa, isLoad := ir.IsLoad(src); isLoad && c.P.LoadedField(ir.Resolve(sa)) == fBuf {
+				okCopy = true
+			} else {
+				bad = "the tail's buffer is re-allocated at " + c.Pos(st) + " but only " + c.P.Desc(src) + " of the old buffer is copied (" + c.Pos(cs.In) + ") while the entry keeps its offset: flush skips that many bytes that were never sent"
+			}
+		}
+		if !okCopy && bad == "" {
+			bad = "the tail's buffer is re-allocated at " + c.Pos(st) + " without copying the old contents"
+		}
+	}
+	if n == 0 && bad == "" {
+		c.OK("C01.O10", key, c.FnPos(fn), "no re-allocation of an existing entry's buffer (growth is left to Append)")
+		return
+	}
+	c.Cond(bad == "", "C01.O10", key, c.FnPos(fn), fmt.Sprintf("%d re-allocation(s): whole old buffer copied to the front", n), bad)
 }
